@@ -215,6 +215,16 @@ class C07(Prop):
         before = [self.gen_recording(rng, uids[i]) for i in range(rng.choice([0, 0, 1, 2, 5]))]
         after = [self.gen_recording(rng, uids[5 + i]) for i in range(rng.choice([0, 0, 1, 2, 5]))]
         main = self.gen_recording(rng, uids[11], big=True)
+        if rng.random() < 0.4:
+            # the same id is saved AGAIN later in the history (a new recording object with the id of an earlier one);
+            # usually with a shorter serialized form, sometimes with a longer one.  The latest save is what must come back.
+            target = rng.choice(before + [main] + after[:1])
+            again = self.gen_recording(rng, target['uid'], big=rng.random() < 0.25)
+            if rng.random() < 0.6:
+                again['data'], again['meta'], again['shared'] = [[k, rng.choice([None, {'i': '1'}, {'s': ''}])] for k, _ in again['data'][:1]], [], []
+            again['category'] = target['category']
+            pos = rng.randrange((1 if target in after else 0), len(after) + 1)
+            after = after[:pos] + [again] + after[pos:]
         case = {'kind': 'cassette', 'cassette': cassette, 'prefix': rng.choice(['', 'p', 'a/b']) if cassette == 's3' else '',
                 'before': before, 'main': main, 'after': after}
         main_id = recording_id(case, main)
@@ -469,9 +479,16 @@ class C07(Prop):
     def oracle(self, case, impl):
         fails = []
         recs = all_recordings(case)
-        for i, (snap, got) in enumerate(list(zip(impl['saved'], impl['fetched'])) + [(impl['saved'][len(case['before'])], impl['again'])]):
+        last = {}       # an id saved more than once holds what was saved last
+        for j, snap in enumerate(impl['saved']):
+            last[snap['id']] = j
+        order = list(range(len(recs))) + [len(case['before'])]
+        for i, (n, got) in enumerate(zip(order, impl['fetched'] + [impl['again']])):
+            j = last[impl['saved'][n]['id']]
+            snap, rec = impl['saved'][j], recs[j]
             who = 'recording %d' % i if i < len(recs) else 'main recording fetched again after the first copy was modified'
-            rec = recs[i] if i < len(recs) else case['main']
+            if j != n:
+                who += ' (id saved again as recording %d)' % j
             tag = 'metakey' if case['cassette'] == 's3' and any(k == '_metadata' for k, _ in rec['data']) else 'plain'
             if tag == 'plain' and rec['shared'] and (any(risky(w) for _, w in rec['data'] + rec['meta'])
                                                      or any(risky(w) for w in rec['shared'])):
@@ -514,6 +531,9 @@ class C07(Prop):
     def features(self, case, impl):
         out = ['cassette:' + case['cassette'], 'before:%d' % len(case['before']), 'after:%d' % len(case['after']),
                'keys:%d' % len(case['main']['data']), 'unknown:%d' % len(case['unknown'])]
+        ids = [recording_id(case, r) for r in all_recordings(case)]
+        if len(set(ids)) < len(ids):
+            out.append('same-id-saved-twice')
         if case['cassette'] == 's3':
             out.append('prefix:%r' % case['prefix'])
         if self.shares(case):
